@@ -129,23 +129,30 @@ Theorem C04_abf_state_after_restart :
 Proof. exact abf_state_after_restart. Qed.
 Print Assumptions C04_abf_state_after_restart.
 
-(* T1 across a load of a state file into the RUNNING instance, after the step i0 made from any state s: the grids are
-   the data set d plus the samples delivered after the load; in the lagged convention the first of them is the force of
-   step i0 itself (exerted before the load, delivered after it, attributed to the bin of i0). *)
+(* T1 across a load of a state file into the RUNNING instance, in any state s: the grids are the data set d plus the
+   samples attributed in the steps made after the load, exactly as after a restart into a new instance.  In the lagged
+   convention the force exerted at the last step before the load belongs to the replaced history and is dropped: the
+   variables do not collect a total force at the first step after a state was read (colvar::set_state_params resets
+   prev_timestep), and the bias takes no sample then (fix 8faa5692; before it, the total force of an earlier step was
+   recorded a second time). *)
 Theorem C04_abf_state_after_reload :
-  forall (c : @abf_cfg R) (s : @abf_state R) (i0 : @abf_in R) (d : @dataset R) (h : list (@abf_in R)) (b : idx),
+  forall (c : @abf_cfg R) (s : @abf_state R) (d : @dataset R) (h : list (@abf_in R)) (b : idx),
     wf_cfg c ->
-    let so := abf_step Rops c s i0 in
-    let s' := abf_set_grids Rops c (fst so) d 0 in
-    let p := (i0, snd so) in
+    let s' := abf_set_grids Rops c s d 0 in
     let r := abf_run_from Rops c s' h in
-    let tr := trace_from Rops c s' h in
-    let A := attributed_of c (if c_same_step c then deliveries_same Rops c tr else deliveries_lag Rops c (Some p) tr) in
-    s_cnt (fst r) b = (fst d b + cnt_of b A)%Z /\
+    let S := attributed Rops c (trace_from Rops c s' h) in
+    s_cnt (fst r) b = (fst d b + cnt_of b S)%Z /\
     forall k, (k < c_nd c)%nat ->
-      vget Rops (s_sum (fst r) b) k = (vget Rops (snd d b) k * IZR (fst d b) - fsum_of Rops k b A)%R.
+      vget Rops (s_sum (fst r) b) k = (vget Rops (snd d b) k * IZR (fst d b) - fsum_of Rops k b S)%R.
 Proof. exact abf_state_after_reload. Qed.
 Print Assumptions C04_abf_state_after_reload.
+
+Theorem C04_no_sample_right_after_reload :
+  forall (c : @abf_cfg R) (s : @abf_state R) (d : @dataset R) (i : @abf_in R),
+    c_same_step c = false ->
+    s_cnt (fst (abf_step Rops c (abf_set_grids Rops c s d 0) i)) = fst d.
+Proof. exact no_sample_right_after_reload. Qed.
+Print Assumptions C04_no_sample_right_after_reload.
 
 (* T1 for a bias DEFINED WHILE THE SIMULATION IS RUNNING (a later `config`; the engine's last step had
    step_relative = rel): the grids are the samples attributed in the bias's own history; nothing that happened before it
